@@ -72,6 +72,17 @@ def current_bounds(F):
         tr = F.traits.get(tn)
         if tr:
             out["supers:%s" % tn] = sorted(x for x in tr["supers"] if not x.endswith("Sized"))
+    # exported inherent methods / free functions: their own where-clauses (plus their impl's)
+    for b in F.bodies.values():
+        if b.kind == "Closure" or not b.r.get("reachable") or not b.r.get("pub") or "trait" in b.r:
+            continue
+        if "self_ty" in b.r:
+            st = F.types[b.r["self_ty"]]
+            if st["k"] != "adt" or st["p"] not in exported_adts:
+                continue
+        bs = [(x[0], x[1]) for x in b.r.get("bounds", [])]
+        gen = [n for n, k in b.r["generics"]]
+        out["fn:%s" % b.name] = norm(bs) + ["<generics: %s>" % ",".join(gen)]
     return out
 
 
@@ -113,7 +124,9 @@ def r_apibounds(F, cfg):
                 R.ok({"item": key, "supertraits": fb}, nontrivial=True)
             continue
         new = sorted(set(cb) - set(fb))
-        if new:
+        if new and any(x.startswith("<generics:") for x in new):
+            R.violation("apibounds:generics:%s" % key, "src/lib.rs", "%s changed its generic parameter list: %s (6.4.1: %s)" % (key, [x for x in cb if x.startswith("<generics:")], [x for x in fb if x.startswith("<generics:")]))
+        elif new:
             R.violation("apibounds:tightened:%s" % key, "src/lib.rs", "%s now additionally requires %s (6.4.1 required %s)" % (key, new, fb))
         else:
             R.ok({"item": key, "bounds": cb} if n % 40 == 1 else None, nontrivial=True)
